@@ -35,7 +35,13 @@ func P1(idx int, a []byte) []byte {
 }
 
 // P2Patterns are the structured long payload patterns.
-var P2Patterns = []string{"zeros", "ff", "cycle2", "cycle256", "lcg", "far"}
+var P2Patterns = []string{"zeros", "ff", "cycle2", "cycle256", "lcg", "far", "cycle251", "words"}
+
+// P2LongOnly: patterns whose period does not divide 32768 (so that a window that is stale by a multiple of 32 KiB
+// holds DIFFERENT bytes); only used for sizes >= 255.
+var P2LongOnly = map[string]bool{"cycle251": true, "words": true}
+
+var wordList = []string{"the", "quick", "brown", "fox", "jumps", "over", "lazy", "dog", "wuffs", "deflate", "window", "history", "ring", "buffer", "a", "of", "and", "stream", "decoder", "suspend"}
 
 // P2Sizes lists the structured payload sizes; tier 0 = quick (drops nothing: the big ones are few).
 func P2Sizes() []int {
@@ -67,6 +73,23 @@ func P2(pattern string, n int) []byte {
 	case "cycle256":
 		for i := range b {
 			b[i] = byte(i)
+		}
+	case "cycle251":
+		for i := range b {
+			b[i] = byte(i%251) ^ 0x5A
+		}
+	case "words": // word salad: compressible, many matches at all distances, not periodic
+		x := uint32(2463534242)
+		for i := 0; i < n; {
+			x ^= x << 13
+			x ^= x >> 17
+			x ^= x << 5
+			w := wordList[x%uint32(len(wordList))]
+			i += copy(b[i:], w)
+			if i < n {
+				b[i] = ' '
+				i++
+			}
 		}
 	case "lcg":
 		x := uint32(12345)
@@ -122,7 +145,7 @@ func P2Payloads(maxSize int) []Payload {
 			continue
 		}
 		for _, p := range P2Patterns {
-			if n == 0 && p != "zeros" {
+			if (n == 0 && p != "zeros") || (P2LongOnly[p] && n < 255) {
 				continue
 			}
 			out = append(out, Payload{Desc: fmt.Sprintf("P2:%s:%d", p, n), Class: "P2:" + p, Data: P2(p, n)})
